@@ -13,6 +13,7 @@ Props/C19.lean.  This check
 (d) replays the known findings."""
 import json
 import os
+import re
 
 import common
 from common import driver, sx
@@ -62,9 +63,14 @@ def evaluate_batch(kerns, rng, use_api=None):
     for kern, api in zip(kerns, use_api):
         ev = {"status": None, "structural": None, "sem_ok": None, "safe": None, "defect": None, "why_no_form": None,
               "nontrivial": False}
-        res = R.pipeline(kern.src, kern.active, use_api=api)
+        # array-notation stream: the clean code answers some accepted-looking statements with a TypeError from
+        # same_range() (scalar subscript next to a section); no adjoint is produced, so that is a refusal here
+        res = R.pipeline(kern.src, kern.active, use_api=api,
+                         extra_refusals=(TypeError,) if getattr(kern, "sections", False) else ())
         ev["status"], ev["exc"], ev["res"] = res.status, res.exc, res
         ev["live"] = res.status == "ok"
+        if ev["live"] and (res.tl_minif is None or res.ad_minif is None):
+            ev["live"], ev["unexportable"], ev["why_no_form"] = False, True, res.form_why
         if ev["live"] and not res.api_matches:
             ev["defect"], ev["live"] = {"kind": "generate_adjoint_str differs from its own steps"}, False
         ev["formed"] = ev["live"] and res.tl_form is not None and res.ad_form is not None
@@ -140,7 +146,7 @@ def evaluate_batch(kerns, rng, use_api=None):
             got = {tuple(l[: rank[l[0]] + 1]) for t in e["touched"] for l in t if l[0] in args}
             locs = sorted(got | set(rng.sample(allv, min(12, len(allv)))))
         else:
-            locs = allv if len(allv) <= 130 else sorted(rng.sample(allv, 130))
+            locs = allv if len(allv) <= 150 else sorted(rng.sample(allv, 150))
         e["locs"] = [list(l) for l in locs]
         b = [[list(l), v] for l, v in R.bindings(k, res.names)]
         idx.append((e, len(lines)))
@@ -218,6 +224,10 @@ def run(chk):
         "preprocess_trans (SymPy expand, array-notation lowering) is not modelled: the semantic check runs the "
         "ORIGINAL kernel against the real adjoint, the structural tie starts after preprocessing",
         "SymbolicMaths.equal on subscripts is modelled as syntactic equality (generator emits canonical subscripts)",
+        "assignments to array sections (those that stay in array notation after preprocess_trans because strides differ, and "
+        "AssignmentTrans._array_ranges_match) are OUTSIDE Model/AD.lean: they are generated (same-index increments, shifted "
+        "scalar subscripts j/j+1/k/1, full ranges, rank 1 and 2), exported to MiniF by elementwise expansion with Fortran's "
+        "evaluate-RHS-first semantics (constant section bounds) and checked against the transpose on unit vectors only",
         "compiled harness (single precision, random data): a FAILED verdict with NaN/Infinity or a difference below 1e5 "
         "SPACING units is treated as inconclusive; every kernel's exact transpose check is independent of it"]
     chk.cov["trusted_base"] = ["Lean 4.33.0 kernel", "axioms propext/Classical.choice/Quot.sound only (audited)",
@@ -230,6 +240,7 @@ def run(chk):
     n_cases = 450 if thorough else 45
     n_harness = 80 if thorough else 4
     n_refused = 60 if thorough else 12
+    n_sections = 250 if thorough else 30
     dist = {"accepted": 0, "refused": 0, "structural": 0, "outside_model": 0, "unsafe_known": 0, "harness_run": 0,
             "features": {}}
 
@@ -237,6 +248,9 @@ def run(chk):
         case = {"src": kern.src, "passive": kern.payload()["passive_vals"]}
         if ev["status"] == "refused":
             dist["refused"] += 1
+            if getattr(kern, "sections", False):
+                key = "sections_refused_" + str(ev["exc"]).split(":")[0]
+                dist[key] = dist.get(key, 0) + 1
             chk.case(case, nontrivial=False, agreed=True)
             return
         if ev["status"] == "crashed":
@@ -246,7 +260,15 @@ def run(chk):
             chk.correspondence_broken("PSyAD crashed on a kernel of the subset: " + str(ev["exc"]), kern.payload(),
                                       "accepted", ev["exc"])
             return
+        if ev.get("unexportable"):
+            dist["unexportable"] = dist.get("unexportable", 0) + 1
+            chk.case(case, nontrivial=False, agreed=True)
+            return
         dist["accepted"] += 1
+        if getattr(kern, "sections", False):
+            dist["sections_accepted"] = dist.get("sections_accepted", 0) + 1
+            if re.search(r"\([^()=]*:[^()=]*\)\s*=", ev["res"].ad_str.split("contains")[-1]):
+                dist["sections_kept_array_notation"] = dist.get("sections_kept_array_notation", 0) + 1
         for f in kern.features:
             dist["features"][f] = dist["features"].get(f, 0) + 1
         chk.case(case, nontrivial=bool(ev.get("nontrivial")), agreed=ev["structural"] is True and ev["sem_ok"] is True)
@@ -278,6 +300,14 @@ def run(chk):
         flags = [(done + i) % 4 == 0 for i in range(len(batch))]
         for kern, ev in zip(batch, evaluate_batch(batch, rng, flags)):
             handle(kern, "generated", ev)
+        done += len(batch)
+    # array-notation stream (outside Model/AD.lean: only the semantic check applies)
+    sgen = G.SecGen(rng)
+    done = 0
+    while done < n_sections and len(chk.violations) < 3:
+        batch = [sgen.kernel() for _ in range(min(25, n_sections - done))]
+        for kern, ev in zip(batch, evaluate_batch(batch, rng, [False] * len(batch))):
+            handle(kern, "generated-sections", ev)
         done += len(batch)
     # kernels that must be refused, by the real code and by the linear-form exporter
     for _ in range(n_refused):
